@@ -13,6 +13,13 @@ Tie to the source (`yastn/tn/mps/_mps_obc.py:245-497`):
       Schmidt values are the largest ones, the local and the returned total discarded weight equal the dense relative
       distances, the kept norm goes into `factor`; the hypotheses of theorem `nested_projection_error` (each cut is an
       orthogonal projection, later states stay orthogonal to earlier residuals) are validated as contracts;
+      every single cut (inside a `truncate_` sweep and as a STAND-ALONE building block: canonical form, QR steps up to
+      a random bond, `orthogonalize_site_` -> `diagonalize_central_(binding opts)` -> `absorb_central_`, independent
+      normalize flags) is checked on its own: unit norm / `factor` = norm of the kept part right after the cut, the
+      stored central block = normalised Schmidt values of the truncated state, returned weight = dense distance =
+      norm of the discarded tail of the dense spectrum.  Weights are compared with an ABSOLUTE tolerance of 1e-12 and
+      the generator produces states a/|a| + eps*b/|b| (eps = 1e-9.5 … 1e-2) truncated back to the bond dimension of a,
+      so that small truncation errors (1e-10 … 1e-3) must be reported with the accuracy the dense reference resolves;
  (iii) the per-cut weights returned by `diagonalize_central_` are re-folded by the Lean model over exact rationals
       (`accumulate`, theorem `accumulate_eq`) and compared with the returned total.
 """
@@ -1031,7 +1038,6 @@ def run_bond(ctx, case):
             ctx.fail("oracle", "c08:isometry", f"{where}: after the cut site {n} isometry defect {dfc:.3e}", **ok)
             return
     post = cdat["post"]
-    npost = float(np.linalg.norm(post))
     if d > 1e-12:
         ctx.count("bond:binding")
     # ---- absorb the truncated centre: same state, documented norm convention visible through the public observers
@@ -1126,7 +1132,11 @@ def run(ctx):
                 "random/product/GHZ-like sums with degenerate Schmidt values/rank-deficient a+c·a/random+product; real and complex; N=1..7 "
                 "(quick ≤5, dense references need d^N ≤ 2^14)) × random sequences of the six in-place methods (legal ~88%, illegal "
                 "direction/site/centre ~12%); non-trivial = distinct (state spec, call list). truncation cases: state prepared in the "
-                "opposite canonical form (85%) × to × opts(D_total/tol/D_block/tol_block) × normalize; non-trivial = some cut discards weight")
+                "opposite canonical form (85%) × to × opts(D_total/tol/D_block/tol_block, incl. small tol 1e-8..1e-4) × normalize; 30% of the "
+                "truncation states are a/|a|+eps·b/|b| (eps 1e-9.5..1e-2, D_a 1..4, D_b 1..3) cut back to D_a or by a tol between eps and 1 "
+                "(small but resolved discarded weight); non-trivial = some cut discards weight. single-bond cases: same states, canonical "
+                "form opposite to `to`, QR steps (normalize random) to a random site, orthogonalize_site_ -> diagonalize_central_(opts) -> "
+                "absorb_central_(first/last/none) with independent normalize flags; non-trivial = the cut discards weight")
     budget = 40 if quick else 600
     t0 = time.time()
     OBSERVED.clear()
